@@ -243,43 +243,54 @@ func checkContainmentTie(c *Ctx, p *core.Prog) {
 		return
 	}
 	n := 0
-	for _, b := range m.Blocks {
-		for _, in := range b.Instrs {
-			phi, ok := in.(*ssa.Phi)
-			if !ok || !isBool(phi.Type()) {
-				continue
+	// a place where a candidate is given up: `keep` becomes false (a constant false flowing into a boolean phi), or a
+	// helper that decides about one candidate returns false; `at` is the block whose facts hold there
+	giveUp := func(fn *ssa.Function, at *ssa.BasicBlock, edgeTo *ssa.BasicBlock, pos token.Pos) {
+		behindContains, strict := false, false
+		for _, ft := range core.FactsAt(at) {
+			if call, isCall := ft.Cond.(*ssa.Call); isCall && ft.Truth && call.Call.StaticCallee() == cont {
+				behindContains = true
 			}
-			for k, e := range phi.Edges {
-				cst, isC := e.(*ssa.Const)
-				if !isC || cst.Value == nil || cst.Value.String() != "false" {
+			if cmp, isCmp := ft.AsCmp(); isCmp && (cmp.Op == token.GTR || cmp.Op == token.LSS) {
+				if bt, isB := cmp.X.Type().Underlying().(*types.Basic); isB && bt.Info()&types.IsFloat != 0 {
+					strict = true
+				}
+			}
+		}
+		// the edge itself: `at` ends in the comparison
+		if edgeTo != nil {
+			if ifi, isIf := at.Instrs[len(at.Instrs)-1].(*ssa.If); isIf {
+				if bo, isBo := ifi.Cond.(*ssa.BinOp); isBo && (bo.Op == token.GTR || bo.Op == token.LSS) && at.Succs[0] == edgeTo {
+					if bt, isB := bo.X.Type().Underlying().(*types.Basic); isB && bt.Info()&types.IsFloat != 0 {
+						strict = true
+					}
+				}
+			}
+		}
+		if !behindContains {
+			return
+		}
+		n++
+		c.R.Check(strict, "R01.4", "match: behind contains(...), a candidate is given up only when the other one weighs strictly more", p.Pos(pos), "keep becomes false under a strict comparison of the two weights",
+			"a candidate is also given up when the two weights are equal: of two corpus documents with the same words (one text under two names) only one is reported for a verbatim copy")
+	}
+	for _, fn := range pkgClosure(m, v2pkg) {
+		for _, b := range fn.Blocks {
+			for _, in := range b.Instrs {
+				phi, ok := in.(*ssa.Phi)
+				if !ok || !isBool(phi.Type()) {
 					continue
 				}
-				pb := b.Preds[k]
-				behindContains, strict := false, false
-				for _, ft := range core.FactsAt(pb) {
-					if call, isCall := ft.Cond.(*ssa.Call); isCall && ft.Truth && call.Call.StaticCallee() == cont {
-						behindContains = true
-					}
-					if cmp, isCmp := ft.AsCmp(); isCmp && (cmp.Op == token.GTR || cmp.Op == token.LSS) {
-						if bt, isB := cmp.X.Type().Underlying().(*types.Basic); isB && bt.Info()&types.IsFloat != 0 {
-							strict = true
-						}
+				for k, e := range phi.Edges {
+					if cst, isC := e.(*ssa.Const); isC && cst.Value != nil && cst.Value.String() == "false" {
+						giveUp(fn, b.Preds[k], b, phi.Pos())
 					}
 				}
-				// the edge itself: pb ends in the comparison
-				if ifi, isIf := pb.Instrs[len(pb.Instrs)-1].(*ssa.If); isIf {
-					if bo, isBo := ifi.Cond.(*ssa.BinOp); isBo && (bo.Op == token.GTR || bo.Op == token.LSS) && pb.Succs[0] == b {
-						if bt, isB := bo.X.Type().Underlying().(*types.Basic); isB && bt.Info()&types.IsFloat != 0 {
-							strict = true
-						}
-					}
+			}
+			if ret, isRet := b.Instrs[len(b.Instrs)-1].(*ssa.Return); isRet && len(ret.Results) >= 1 && isBool(ret.Results[0].Type()) {
+				if cst, isC := ret.Results[0].(*ssa.Const); isC && cst.Value != nil && cst.Value.String() == "false" {
+					giveUp(fn, b, nil, ret.Pos())
 				}
-				if !behindContains {
-					continue
-				}
-				n++
-				c.R.Check(strict, "R01.4", "match: behind contains(...), a candidate is given up only when the other one weighs strictly more", p.Pos(phi.Pos()), "keep becomes false under a strict comparison of the two weights",
-					"a candidate is also given up when the two weights are equal: of two corpus documents with the same words (one text under two names) only one is reported for a verbatim copy")
 			}
 		}
 	}
@@ -880,47 +891,70 @@ func runC06(c *Ctx) {
 			for _, cv := range sites {
 				rewriteFn[cv.Parent()] = true
 			}
-			set := map[ssa.Value]bool{}
-			for _, call := range core.CallsIn(ct) {
-				if cv, isCall := call.(*ssa.Call); isCall {
-					if f := cv.Call.StaticCallee(); (f != nil && rewriteFn[f]) || (rewriteFn[ct] && isCallTo(cv, "strings.ReplaceAll")) {
+			// wordThroughRewrite(f): every word f returns went through the rewrite (in f itself or in a helper it returns
+			// the result of); constants, table entries and the number path cannot contain the scheme
+			nRet := 0
+			var through func(f *ssa.Function, depth int, report bool) bool
+			through = func(f *ssa.Function, depth int, report bool) bool {
+				if depth > 3 || len(f.Blocks) == 0 {
+					return false
+				}
+				set := map[ssa.Value]bool{}
+				for _, call := range core.CallsIn(f) {
+					cv, isCall := call.(*ssa.Call)
+					if !isCall {
+						continue
+					}
+					g := cv.Call.StaticCallee()
+					switch {
+					case g != nil && rewriteFn[g]:
+						set[cv] = true
+					case rewriteFn[f] && isCallTo(cv, "strings.ReplaceAll"):
+						set[cv] = true
+					case g != nil && g != f && core.FuncPkgPath(g) == v2pkg && g.Signature.Results().Len() == 1 && isString(g.Signature.Results().At(0).Type()) && through(g, depth+1, false):
 						set[cv] = true
 					}
 				}
-			}
-			nRet := 0
-			for _, b := range ct.Blocks {
-				ret, isRet := b.Instrs[len(b.Instrs)-1].(*ssa.Return)
-				if !isRet || len(ret.Results) != 1 {
-					continue
-				}
-				r := ret.Results[0]
-				if _, isConst := r.(*ssa.Const); isConst {
-					continue
-				}
-				// a table entry (spelling variants) or the number path (no letters left) cannot contain the scheme
-				if ex, isEx := r.(*ssa.Extract); isEx {
-					if _, isLk := ex.Tuple.(*ssa.Lookup); isLk {
+				okAll := true
+				for _, b := range f.Blocks {
+					ret, isRet := b.Instrs[len(b.Instrs)-1].(*ssa.Return)
+					if !isRet || len(ret.Results) != 1 {
 						continue
 					}
-				}
-				if _, isLk := r.(*ssa.Lookup); isLk {
-					continue
-				}
-				numberPath := false
-				for _, ft := range core.FactsAt(b) {
-					if call, isCall := ft.Cond.(*ssa.Call); isCall && ft.Truth && core.StaticCalleeName(&call.Call) == "unicode.IsDigit" {
-						numberPath = true
+					r := ret.Results[0]
+					if _, isConst := r.(*ssa.Const); isConst {
+						continue
+					}
+					if ex, isEx := r.(*ssa.Extract); isEx {
+						if _, isLk := ex.Tuple.(*ssa.Lookup); isLk {
+							continue
+						}
+					}
+					if _, isLk := r.(*ssa.Lookup); isLk {
+						continue
+					}
+					numberPath := false
+					for _, ft := range core.FactsAt(b) {
+						if call, isCall := ft.Cond.(*ssa.Call); isCall && ft.Truth && core.StaticCalleeName(&call.Call) == "unicode.IsDigit" {
+							numberPath = true
+						}
+					}
+					if numberPath {
+						continue
+					}
+					dep := dependsOnAnyThroughPhi(r, set, 0)
+					if report {
+						nRet++
+						c.R.Check(dep, "R06.4", "cleanupToken: the cleaned word passes through the scheme rewrite before it is returned", p.Pos(ret.Pos()), "the returned word is the result of the rewrite on every path",
+							"stripping the punctuation out of a URL can create a new \"https\" (\"http://spdx.org\" -> \"httpspdxorg\") that the rewrite, applied only to the raw word, never sees: Normalize writes that word out and tokenizing it again rewrites it, so the normalised text matches differently from the original")
+					}
+					if !dep {
+						okAll = false
 					}
 				}
-				if numberPath {
-					continue
-				}
-				nRet++
-				dep := dependsOnAnyThroughPhi(r, set, 0)
-				c.R.Check(dep, "R06.4", "cleanupToken: the cleaned word passes through the scheme rewrite before it is returned", p.Pos(ret.Pos()), "the returned word is the result of the rewrite on every path",
-					"stripping the punctuation out of a URL can create a new \"https\" (\"http://spdx.org\" -> \"httpspdxorg\") that the rewrite, applied only to the raw word, never sees: Normalize writes that word out and tokenizing it again rewrites it, so the normalised text matches differently from the original")
+				return okAll
 			}
+			through(ct, 0, true)
 			c.R.RequireMin("R06.4", "word-returning paths of cleanupToken", nRet, 1)
 		}
 		if okAll {
